@@ -10,6 +10,8 @@ R07.3 union: LookaheadDFA::unite reads every field of `other` (states, transitio
       operand cuts longer look-ahead strings of later productions off.
 R07.4 k is carried through every conversion (LookaheadDFA -> CompiledDFA -> AdjacencyList -> CompiledDFA -> render).
 R07.5 a state rename rewrites the references in every state (whole-map iteration).
+R07.6 calculate_lookahead_dfas unites a production's automaton with the automaton looked up by the non-terminal's name
+      (never by position) and never overwrites a stored automaton.
 Trie construction and the correctness of minimisation are algorithmic and NOT decided.
 """
 from .. import cfg
@@ -183,6 +185,7 @@ def check(ctx):
                           "the conversion does not carry the look-ahead depth k of its source", where(b2, line))
     ctx.require_floor("R07.4", "k_conversions", n, 2)
     renames_cover_all_states(ctx, facts)
+    union_is_keyed_by_non_terminal(ctx, facts)
 
 
 def renames_cover_all_states(ctx, facts):
@@ -232,3 +235,100 @@ def renames_cover_all_states(ctx, facts):
                       "the old state number" % (short(b.path), ".".join(reversed(chain)) or "no whole-map iterator found"),
                       where(b, c.line))
     ctx.require_floor("R07.5", "rename_loops", n, 1)
+
+
+KEYED = {"remove", "remove_entry", "get", "get_mut", "entry", "get_key_value", "contains_key", "find", "position", "find_map"}
+POSITIONAL = {"last", "last_mut", "first", "first_mut", "pop", "pop_back", "pop_front", "back", "back_mut", "front", "front_mut",
+              "peek", "peek_mut", "split_last", "split_last_mut", "split_first", "split_first_mut"}
+MAPS = ("std::collections::BTreeMap", "std::collections::HashMap", "indexmap::")
+
+
+def origin_chain(body, op, depth=14):
+    """[(method name, self type)] of the calls a value is obtained through, nearest first (receiver chain; projections,
+    borrows, Option/Result payload patterns and copies are looked through)"""
+    chain = []
+    t = operand_term(body, op)
+    hops = 0
+    while hops < depth:
+        hops += 1
+        if t[0] == "proj":
+            t = t[1]
+            continue
+        if t[0] == "call":
+            c = t[1]
+            chain.append(((c.path or "").split("::")[-1], c.self_ty or "", c))
+            if not c.args:
+                break
+            t = operand_term(body, c.args[0])
+            continue
+        if t[0] == "path" and t[1] > body.nargs:
+            # a pattern binding / user variable: follow its single whole definition, if any
+            ds = [d for d in body.defs(t[1]) if d[0] in ("assign", "call")]
+            if len(ds) == 1 and ds[0][0] == "call":
+                t = ("call", ds[0][3])
+                continue
+            if len(ds) == 1 and ds[0][3][0] in ("use", "ref", "cfd") and hops < depth:
+                from ..dataflow import rvalue_term
+                t2 = rvalue_term(body, ds[0][3])
+                if t2 != t:
+                    t = t2
+                    continue
+        break
+    return chain, t
+
+
+def union_is_keyed_by_non_terminal(ctx, facts):
+    """R07.6 (added after seed C07-c) calculate_lookahead_dfas folds the automaton of every production into the automaton of
+    its non-terminal.  The productions of one non-terminal are not contiguous in general (the k-tuples are ordered by production
+    number and the grammar transformations append helper productions at the end), so the automaton to unite with must be looked
+    up by the non-terminal's name in the whole accumulator:
+      a) the receiver of every LookaheadDFA::unite call comes from a keyed lookup (map remove/get/entry, or a find over the
+         accumulator), never from a positional accessor (last, first, pop ...) - "the previous production" is not "the same
+         non-terminal";
+      b) every insert into a map String -> LookaheadDFA is preceded, on every path, by a keyed lookup of the same map (so an
+         existing automaton was taken out and united, not overwritten);
+      c) such a map is not collected from a sequence of pairs (FromIterator keeps only the last pair of a key)."""
+    root = facts.body("parol::analysis::k_decision::calculate_lookahead_dfas")
+    fam = facts.family(root)
+    n = 0
+    for b in fam:
+        dom = None
+        for c in b.calls():
+            last = (c.path or "").split("::")[-1]
+            if c.path == LADFA + "::unite" and c.args:
+                n += 1
+                chain, leaf = origin_chain(b, c.args[0])
+                names = [(nm, st) for nm, st, _c in chain]
+                pos = next((i for i, (nm, st) in enumerate(names) if nm in POSITIONAL and ("Vec" in st or st.startswith("[") or "Deque" in st
+                                                                                          or "Peekable" in st)), None)
+                key = next((i for i, (nm, st) in enumerate(names) if nm in KEYED), None)
+                shown = " <- ".join(nm for nm, _s in names) or "a local"
+                if pos is not None and (key is None or pos < key):
+                    ctx.bad("R07.6", "calculate_lookahead_dfas|union-partner-looked-up-by-position",
+                            "the automaton a production's automaton is united with is obtained by position (%s): productions of one "
+                            "non-terminal that are not adjacent in production order get separate automata, and only one of them "
+                            "survives in the result map - the others' productions are never predicted" % shown, where(b, c.line))
+                else:
+                    ctx.ok("R07.6", "calculate_lookahead_dfas|union-partner-keyed", "unite's receiver: %s" % shown, where(b, c.line))
+            if last == "insert" and any(m in (c.self_ty or "") for m in MAPS) and "LookaheadDFA>" in (c.self_ty or "") \
+                    and "String" in (c.self_ty or ""):
+                dom = dom or cfg.Dom(b)
+                mp = raw_operand_place(b, c.args[0])
+                looked = False
+                for c2 in b.calls():
+                    if (c2.path or "").split("::")[-1] in KEYED and (c2.self_ty or "") == (c.self_ty or "") and c2.bb != c.bb \
+                            and dom.dominates(c2.bb, c.bb):
+                        mp2 = raw_operand_place(b, c2.args[0])
+                        if mp and mp2 and mp[0] == mp2[0]:
+                            looked = True
+                ctx.check(looked, "R07.6", "calculate_lookahead_dfas|insert-after-keyed-lookup",
+                          "the insert is dominated by a keyed lookup of the same map",
+                          "an automaton is inserted into the result map without looking the non-terminal up first: an automaton "
+                          "already stored for it (from an earlier production) is overwritten", where(b, c.line))
+            if last in ("collect", "from_iter", "extend") and "LookaheadDFA" in (c.self_ty or "") and \
+                    ("vec::IntoIter" in (c.self_ty or "") or "slice::Iter" in (c.self_ty or "")) and \
+                    "BTreeMap<std::string::String" in (b.local_ty(c.dest[0]) or ""):
+                ctx.bad("R07.6", "calculate_lookahead_dfas|map-collected-from-sequence",
+                        "the result map is collected from a sequence of (non-terminal, automaton) pairs: when a non-terminal occurs "
+                        "twice only its last automaton is kept", where(b, c.line))
+    ctx.require_floor("R07.6", "unite_calls", n, 1)
